@@ -89,7 +89,7 @@ func runC05(c *eng.Ctx) {
 					return eng.Call(-1, cl+"indexedEnd")(v) || eng.BinComm(token.ADD, eng.LoadNamed("Position", nil), eng.LoadNamed("Size", nil))(v)
 				}
 				if isEnd(st.Val) {
-					cmp := append(eng.CmpEdges(a.Fn, eng.Load(posF, nil), isEnd, eng.GT), eng.CmpEdges(a.Fn, eng.Load(posF, nil), isEnd, eng.LE)...)
+					cmp := eng.CmpEdges(a.Fn, eng.Load(posF, nil), isEnd, eng.LT|eng.EQ|eng.GT)
 					if g, _ := eng.GuardedBy(a.Fn, st, cmp); g && len(cmp) > 0 {
 						ok = true
 					}
@@ -372,7 +372,27 @@ func runC05(c *eng.Ctx) {
 			}
 			return eng.BinComm(token.ADD, eng.LoadNamed("Position", nil), eng.LoadNamed("Size", nil))(v)
 		}
-		ahead := eng.CmpEdges(fn, eng.Load(posF, nil), end, eng.GT)
+		// the edges on which the log and its index may disagree: every edge of a comparison of the two except those on which
+		// they are known to be equal. (Log ahead: a crash between the log write and the index write of an append. Index
+		// ahead or simply different: a crash between the two renames of Replace, which leaves the rewritten log of a
+		// truncated / compacted segment next to the old index.)
+		anyCmp := eng.CmpEdges(fn, eng.Load(posF, nil), end, eng.LT|eng.EQ|eng.GT)
+		equal := map[eng.Edge]bool{}
+		for _, e := range eng.CmpEdges(fn, eng.Load(posF, nil), end, eng.EQ) {
+			equal[e] = true
+		}
+		var ahead []eng.Edge
+		for _, e := range anyCmp {
+			if equal[e] {
+				continue
+			}
+			// a comparison made after the index was rebuilt (is a partial message set left at the end?) is part of the repair
+			last := e.From.Instrs[len(e.From.Instrs)-1]
+			if after, _ := eng.PrecededBy(fn, last, eng.IsCallTo(cl+"segment.rebuildIndex")); after {
+				continue
+			}
+			ahead = append(ahead, e)
+		}
 		ok := len(ahead) > 0
 		var w *eng.Witness
 		if ok {
@@ -390,7 +410,7 @@ func runC05(c *eng.Ctx) {
 		if ok {
 			// ... and no successful return of setupIndex is taken before that comparison was made (an early `return nil` for
 			// an empty index skips exactly the case of a crash during the first append to a fresh segment)
-			compared := append(append([]eng.Edge{}, ahead...), eng.CmpEdges(fn, eng.Load(posF, nil), end, eng.LE)...)
+			compared := anyCmp
 			for _, r := range eng.Returns(fn) {
 				rv := eng.RetVals(r)
 				if len(rv) == 1 && eng.NilConst(rv[0]) {
@@ -400,7 +420,39 @@ func runC05(c *eng.Ctx) {
 				}
 			}
 		}
-		c.Check(ok, "a log that is ahead of its index is repaired when the segment is opened", p.Pos(fn.Pos()), "position > end of the last indexed message set ⇒ rebuildIndex / truncate before the segment is used", "setupIndex never compares the log's size with the end of the last indexed message set (or can succeed without repairing, path "+w.String()+"): after a crash between the log write and the index write of an append, the next append re-uses the orphan's offset and readers that walk the segment deliver the never-completed message and the acknowledged one under the same offset")
+		c.Check(ok, "a log and an index that disagree are reconciled when the segment is opened", p.Pos(fn.Pos()), "position != end of the last indexed message set ⇒ rebuildIndex / truncate before the segment is used", "setupIndex can succeed although the log does not end where its index ends (path "+w.String()+"): after a crash between the log write and the index write of an append the next append re-uses the orphan's offset; after a crash between the two renames of Replace the old index is applied to the rewritten log — phantom offsets after a truncation, other messages than the ones asked for after a compaction")
+	}
+	// the leader-epoch history is brought back in step with the log in BOTH directions at open: entries beyond the log end are
+	// trimmed (R05.5), and epochs the log holds but the checkpoint file lacks (a crash between the index write and the
+	// checkpoint replace of an append) are re-assigned from the messages — or cannot be missing in the first place because
+	// append records a new epoch before it writes the message
+	{
+		okRecover, how := false, ""
+		if nw := c.Fn(cl + "New"); nw != nil {
+			for _, f := range moduleReach(c, nw, 3) {
+				if len(eng.CallsIn(f, cl+"messageSet.LeaderEpoch")) > 0 && len(eng.CallsIn(f, cl+"leaderEpochCache.Assign")) > 0 {
+					okRecover, how = true, "New reaches "+ir.FuncKey(f)+", which reads the epochs of the messages and assigns the missing ones"
+				}
+			}
+		}
+		if ap := c.Fn(cl + "(*commitLog).append"); ap != nil && !okRecover {
+			as := eng.CallsIn(ap, cl+"leaderEpochCache.Assign")
+			wr := eng.CallsIn(ap, cl+"segment.WriteMessageSet")
+			if len(as) >= 1 && len(wr) == 1 {
+				// every Assign precedes the write
+				first := true
+				for _, a := range as {
+					q := &eng.PathQuery{Fn: ap, FromAfter: []ssa.Instruction{wr[0].(ssa.Instruction)}, Target: func(x ssa.Instruction) bool { return x == a.(ssa.Instruction) }}
+					if q.Find() != nil {
+						first = false
+					}
+				}
+				if first {
+					okRecover, how = true, "append assigns a new epoch before it writes the message set"
+				}
+			}
+		}
+		c.Check(okRecover, "the epoch history cannot stay behind the log", "-", how, "append writes the message set before it records a new leader epoch, and opening the log only trims the epoch history: after a crash in between the history lacks the newest epoch, the next message of that epoch records it one offset late, and LastOffsetForLeaderEpoch — what replicas truncate to — answers one too high")
 	}
 	// a replacement segment (.cleaned / .truncated) starts from nothing: both files a crashed attempt left behind are removed
 	if fn := c.Fn(cl + "(*segment).newReplacement"); fn != nil {
@@ -439,7 +491,7 @@ func runC05(c *eng.Ctx) {
 		}
 		c.Check(removed["log"] && removed["index"], "a replacement segment starts without leftovers", p.Pos(fn.Pos()), "stale <base>.log.<suffix> and <base>.index.<suffix> are both removed before the replacement is created", "newReplacement does not remove both files a crashed clean / truncate left behind: the next attempt adopts stale index entries (or stale log bytes) and writes the real ones behind them — duplicated offsets on disk after the rewrite after next")
 	}
-	c.Floor(2)
+	c.Floor(3)
 
 	// ---- R05.7 crash-safe ordering of destructive steps
 	c.Rule("R05.7", "K2")
